@@ -43,10 +43,11 @@ type Config struct {
 	// (foreign squatters that nobody removes, hostile specs, lying faults).
 	Liveness bool `json:"liveness"`
 	// Weights of step kinds for the generator (not used on replay).
-	Weights      map[string]int `json:"weights,omitempty"`
-	FaultPct     int            `json:"fault_pct"` // percent of releases that carry a fault
-	Twin         bool           `json:"twin,omitempty"`
-	ScaleInWatch bool           `json:"scale_in_watch,omitempty"`
+	Weights          map[string]int `json:"weights,omitempty"`
+	FaultPct         int            `json:"fault_pct"` // percent of releases that carry a fault
+	Twin             bool           `json:"twin,omitempty"`
+	KubeProgressOnly bool           `json:"kube_progress_only,omitempty"`
+	ScaleInWatch     bool           `json:"scale_in_watch,omitempty"`
 }
 
 // BuildSet returns the object a user submits for cfg.
